@@ -251,6 +251,7 @@ def c11(ctx):
         if e.m("len", None):
             R.r_count(ctx, db, e, "B")
         R.r_derived_clone(ctx, db, e)
+        R.r_clone_from_exact(ctx, db, e, lambda m, nm, e=e: R.sym_self(m, e, nm))
         # "a freshly constructed empty estimator" can also come from Default
         R.r_default_is_new(ctx, db, e)
     ctx.floor("Merge impls analysed (non-histogram)", n, 11)
@@ -409,6 +410,7 @@ def c13(ctx):
         H.r_scale_reset(ctx, db, e, ln, consts)
         H.r_iter_views(ctx, db, e, ln, consts)
         H.r_iter_overrides(ctx, db, e, ln, consts)
+        H.r_hist_clone(ctx, db, e, ln, consts)
     dba, hs = hist_const_types(ctx)
     for e, ln, consts in hs:
         n += 1
@@ -416,6 +418,7 @@ def c13(ctx):
         H.r_scale_reset(ctx, dba, e, ln, consts)
         H.r_iter_views(ctx, dba, e, ln, consts)
         H.r_iter_overrides(ctx, dba, e, ln, consts)
+        H.r_hist_clone(ctx, dba, e, ln, consts)
     ctx.floor("histogram instantiations analysed (merge/views)", n, 6)
 
 
@@ -435,6 +438,10 @@ def c14(ctx):
                 R.r_default_is_new(ctx, db, e)
                 import forward_rules as FW
                 FW.r_forward_ingest(ctx, db, e)
+            else:
+                # "collect" includes rayon's parallel collect when the feature is on: fold(new, add).reduce(new, merge)
+                import forward_rules as FW
+                FW.r_rayon(ctx, db, e, assume=R.nonnan_state)
     ctx.floor("Min/Max types analysed", n, 4)
 
 
@@ -520,8 +527,9 @@ def c18(ctx):
     ctx.floor("serde field attributes visible in the expanded AST (positive control: BigArray on histogram arrays)", seen, 14)
     R.r_no_interior_mutability(ctx, db)
     # nested state reachable from the listed structs must itself be listed
+    canon_serde = {db.canon(t) for t in SERDE_TYPES}
     for t in SERDE_TYPES:
-        a = db.adts.get(t)
+        a = db.adts.get(db.canon(t))
         if not a:
             continue
         for f in a["variants"][0]["fields"]:
@@ -529,7 +537,7 @@ def c18(ctx):
             while ty["k"] == "array":
                 ty = ty["elem"]
             if ty["k"] == "adt":
-                ctx.ob("R-SERDE", "nested-state-covered", t, "-", ty["path"] in SERDE_TYPES, "field %s has state type %s" % (f["name"], ty["path"]), nontrivial=False)
+                ctx.ob("R-SERDE", "nested-state-covered", t, "-", ty["path"] in canon_serde, "field %s has state type %s" % (f["name"], ty["path"]), nontrivial=False)
 
 
 def c10(ctx):
@@ -686,6 +694,9 @@ def c17(ctx):
         else:
             N.r_convex(ctx, db, e, scen, N.mean_fields(scen), weighted=kw.get("weighted", False))
             N.r_shift(ctx, db, e, scen, N.mean_fields(scen))
+        if kw.get("weighted"):
+            # "contributing observation": a zero-weight observation must be invisible to the weighted mean
+            N.r_zerow(ctx, db, e, ("mean", "weighted_mean", "sum_weights"))
         if t.endswith("WeightedMeanWithError"):
             N.r_effective_len(ctx, db, e, scen)
     for t, N_ in moment_types(ctx, db):
